@@ -438,4 +438,17 @@ def send (numTr : Nat) (d : Dg) : Res Unit × Nat :=
   | .panic s => (.panic s, 0)
   | .ok (o1, o2) => sendLoop numTr (o1.work + o2.work + 1) o1 o2 0
 
+/-- `Sender::send(d)` under an enable mask. `OperationHandler::generate` builds operations for the enabled
+devices only and `OperationHandler::pack` packs for them only; every enabled device gets the same operations, so
+with at least one enabled device the serial packer behaves as in `send`. With *no* enabled device the generator is
+still built (its errors are reported, nothing sent), the operation list is empty, `pack` does nothing, the tx
+buffer is handed to the link once as it is, `wait_msg_processed` has nobody to wait for and `is_done([])` holds:
+`Ok` after one frame, whatever pack-time validation would have said. -/
+def sendMasked (numTr : Nat) (anyEnabled : Bool) (d : Dg) : Res Unit × Nat :=
+  if anyEnabled then send numTr d
+  else match d.generate with
+    | .err e => (.err e, 0)
+    | .panic s => (.panic s, 0)
+    | .ok _ => (.ok (), 1)
+
 end Autd3.Reject
